@@ -880,10 +880,42 @@ func (c *Ctx) derefable(st *State, in ssa.Instruction, v Value) PtrV {
 		panic(pathDead{})
 	}
 	if p.Sym != nil {
-		c.safety(st, in, "nil-deref", Not(Eq(p.Sym, IntC(0))))
+		if c.assumedNonNil(in) {
+			st.assume(Not(Eq(p.Sym, IntC(0))))
+		} else {
+			c.safety(st, in, "nil-deref", Not(Eq(p.Sym, IntC(0))))
+		}
 		return PtrV{Obj: c.materialise(st, p)}
 	}
 	return p
+}
+
+// assumedNonNil: `opt assume-nonnil <local>...` - dereferences of the named local variables are not checked but
+// assumed safe (reported); for facts the arithmetic abstraction in use cannot establish.
+func (c *Ctx) assumedNonNil(in ssa.Instruction) bool {
+	if c.Spec == nil || c.Spec.Opts["assume-nonnil"] == "" {
+		return false
+	}
+	var x ssa.Value
+	switch i := in.(type) {
+	case *ssa.FieldAddr:
+		x = i.X
+	case *ssa.UnOp:
+		x = i.X
+	case *ssa.Store:
+		x = i.Addr
+	}
+	ph, ok := x.(*ssa.Phi)
+	if !ok {
+		return false
+	}
+	for _, n := range strings.Fields(c.Spec.Opts["assume-nonnil"]) {
+		if ph.Comment == n {
+			c.Assumed["dereferences of local `"+n+"` are assumed non-nil, not checked (opt assume-nonnil)"] = true
+			return true
+		}
+	}
+	return false
 }
 
 type pathDead struct{}
@@ -1245,6 +1277,11 @@ func (c *Ctx) convert(st *State, in ssa.Instruction, v Value, from, to types.Typ
 			fl := mk("to_int", IntSort, t)
 			neg := Neg(mk("to_int", IntSort, Neg(t)))
 			return Ite(Cmp(">=", t, RealC(new(big.Rat)), true), fl, neg)
+		}
+		if c.FP {
+			// float abstraction: the truncated value is an uninterpreted function of the float (sound: arbitrary but functional)
+			c.Assumed["float-to-integer conversion is an uninterpreted function of the float value (fpuf)"] = true
+			return App("fp2int."+c.modeTag(), c.sortOfBasic(to), t)
 		}
 		unsupported("float->int conversion in this mode")
 	case isString(to):
